@@ -18,12 +18,14 @@ pub struct LowLevel {
 	pub guard: ConnectionGuard,
 	pub cfg: ServerConfig,
 	pub duplex_capacity: usize,
+	/// abort handles of the tasks that drive the connection futures returned by `ws::connect`
+	pub ws_sessions: Arc<std::sync::Mutex<Vec<tokio::task::AbortHandle>>>,
 }
 
 impl LowLevel {
 	pub fn new(cfg: ServerConfig, methods: impl Into<Methods>) -> Self {
 		let (stop, handle) = stop_channel();
-		LowLevel { methods: methods.into(), stop, handle, conn_id: Default::default(), guard: ConnectionGuard::new(10_000), cfg, duplex_capacity: 1 << 20 }
+		LowLevel { methods: methods.into(), stop, handle, conn_id: Default::default(), guard: ConnectionGuard::new(10_000), cfg, duplex_capacity: 1 << 20, ws_sessions: Default::default() }
 	}
 
 	fn conn_state(&self) -> Option<(ConnectionState, u32)> {
@@ -52,7 +54,8 @@ impl LowLevel {
 				if jsonrpsee_server::ws::is_upgrade_request(&req) {
 					match jsonrpsee_server::ws::connect(req, this.cfg.clone(), this.methods.clone(), conn, RpcServiceBuilder::new()).await {
 						Ok((rp, conn_fut)) => {
-							tokio::spawn(conn_fut);
+							let t = tokio::spawn(conn_fut);
+							this.ws_sessions.lock().unwrap().push(t.abort_handle());
 							Ok(rp)
 						}
 						Err(rp) => Ok(rp),
@@ -99,6 +102,16 @@ impl LowLevel {
 			}
 			Err(e) => fail(format!("send: {e}")),
 		}
+	}
+
+	/// The server side gives up its established WebSocket connections by dropping the futures `ws::connect` returned
+	/// (the documented way to close a connection from the server side with the low-level API).
+	pub fn drop_ws_sessions(&self) -> usize {
+		let hs: Vec<_> = std::mem::take(&mut *self.ws_sessions.lock().unwrap());
+		for h in &hs {
+			h.abort();
+		}
+		hs.len()
 	}
 
 	pub async fn ws(&self) -> Result<RawWs, String> {
